@@ -90,6 +90,8 @@ class World:
         self.listeners = []
         for i in range(nlisten):
             self.listeners.append(Listener(g.pick(["UDP", "UDP", "TCP"]), LISTEN_IP, 5060 + 2 * i, g.chance(0.75) if rcvd is None else rcvd))
+        if nlisten == 2 and rcvd is None and g.chance(0.5):
+            self.listeners[1].rcvd = not self.listeners[0].rcvd        # two listener entries that differ in received-support
         self.mustrr = [g.chance(0.4) if mustrr is None else mustrr for _ in range(nlisten)]
         self.backends = [["127.0.1.%d:5080" % (j + 1) for j in range(nback)] if (i == 0 or g.chance(0.5)) else None for i in range(nlisten)]
         self.hosts = {"proxy.test": LISTEN_IP, "ua1.test": "127.0.2.1", "ua2.test": "127.0.2.2", "hop1.test": "127.0.3.1", "hop2.test": "127.0.3.2", "gw.test": "127.0.3.3"}
@@ -362,7 +364,7 @@ def via_stack(g, w, n, peer_ip, top_matches_peer=False):
 
 def gen_request_case(g, tier, focus=None, c17=None):
     """one world, a few requests through it; covers C01 C03 C06 C07 C13 (+ twins for C17)"""
-    w = World(g, nlisten=g.pick([1, 1, 2]))
+    w = World(g, nlisten=g.pick([1, 2, 2]))
     c = Case(g, w)
     ops = c.ops
     nmsg = g.rint(1, 4)
@@ -386,12 +388,21 @@ def gen_request_case(g, tier, focus=None, c17=None):
                 flip[0] = rep.random() < 0.5
                 if flip[0]:
                     g.count("req_repeated_over_other_transport")
+                # ... or at ANOTHER listener entry of the service (its own received-support setting, its own address): what one
+                # listener did to a Via text must not show in what another one relays for the same text
+                flip_pi[0] = (not flip[0]) and len(w.listeners) > 1 and rep.random() < 0.6
+                if flip_pi[0]:
+                    g.count("req_repeated_at_other_listener")
                 yield k
+                flip_pi[0] = False
     occ = -1
     flip = [False]
+    flip_pi = [False]
     for mi in schedule():
         occ += 1
         pi = g.rint(0, len(w.listeners) - 1)
+        if flip_pi[0]:
+            pi = (pi + 1) % len(w.listeners)
         lst = w.listeners[pi]
         if g.chance(0.3):
             # the message arrives over the OTHER transport of the same listener entry (its TCP port next to its UDP port, or
